@@ -7,22 +7,26 @@ VERIF = os.path.dirname(os.path.dirname(os.path.abspath(__file__)))
 
 ALL = ["C%02d" % i for i in range(1, 21)]
 
-CHECKS = {
-    "C20": {
-        "text": "Theorems over unbounded Z and all strings about the model REGENERATED from scales.py on every run "
-                "(total on 0..100, refusal outside, one-directional, label round trip, unknown labels refused, "
-                "= STIX 2.1 Appendix A tables); kernel-evaluated window check lifted to Z by a generic lemma.",
-        "design_ref": "DESIGN.md 6/C20",
-        "note": "Trusted: Coq kernel + vm_compute, tr_scales translator (validated by a full-domain sweep against the real "
-                "functions each run), the hand-written Appendix A tables in coq/Spec/ConfidenceSpec.v. No axioms.",
-        "technique": "Coq proof over a model translated from source + exhaustive sweep of the real functions",
-    },
-}
+def load_checks():
+    import glob
+    import importlib
+    import sys
+    sys.path.insert(0, os.path.join(VERIF, "harness"))
+    out = {}
+    for p in sorted(glob.glob(os.path.join(VERIF, "harness", "props", "c[0-9][0-9].py"))):
+        pid = os.path.basename(p)[:-3].upper()
+        mod = importlib.import_module("props." + pid.lower())
+        m = getattr(mod, "MANIFEST", None)
+        if m:
+            out[pid] = m
+    return out
+
 
 PENDING_REASON = "not yet built in this framework (see DESIGN.md 10 for the build order); no check is claimed"
 
 
 def main():
+    CHECKS = load_checks()
     checks = []
     for pid in ALL:
         if pid not in CHECKS:
